@@ -272,9 +272,173 @@ def _lean_guard(kind, asserted) -> Tuple[str, str]:
     return f"(.adminAuthErr {a} {seq})", "admin test -> authentication-error TLV; return"
 
 
-def classify_guard(fn: ast.FunctionDef, consts, methods=None) -> Tuple[str, str]:
+class _Rename(ast.NodeTransformer):
+    def __init__(self, mapping):
+        self.mapping = mapping
+
+    def visit_Name(self, node):
+        if node.id in self.mapping:
+            return ast.copy_location(ast.Name(id=self.mapping[node.id], ctx=node.ctx), node)
+        return node
+
+
+def _renamed(fn, mapping):
+    import copy
+
+    return _Rename(mapping).visit(copy.deepcopy(fn))
+
+
+def _plain_params(fn) -> Optional[List[str]]:
+    a = fn.args
+    if a.vararg or a.kwarg or a.kwonlyargs or a.posonlyargs or a.defaults:
+        return None
+    return [x.arg for x in a.args]
+
+
+def _doc_stripped(body):
+    body = list(body)
+    return body[1:] if body and _is_docstring(body[0]) else body
+
+
+def _returns_inner(fn):
+    """`def fn(..): [doc]; def inner(..): ...; return inner` -> inner"""
+    body = _doc_stripped(fn.body)
+    if (
+        len(body) == 2
+        and isinstance(body[0], ast.FunctionDef)
+        and isinstance(body[1], ast.Return)
+        and isinstance(body[1].value, ast.Name)
+        and body[1].value.id == body[0].name
+    ):
+        return body[0]
+    return None
+
+
+def _terminates(stmts) -> bool:
+    return bool(stmts) and isinstance(stmts[-1], (ast.Return, ast.Raise))
+
+
+def classify_decorator(dec, consts, mod_funcs):
+    """A decorator on a handler, followed into the module. Accepted as the handler's guard only if the
+    wrapper it returns tests `self.is_encrypted` BEFORE anything else and, on an unverified
+    connection, logs / refuses (directly or through a deny-policy function of the same module that
+    raises UnprivilegedRequestException or sends the bare 401) and returns or raises WITHOUT any
+    reference to the wrapped function. -> (kind | None, note)"""
+    policies: Dict[str, ast.FunctionDef] = {}
+    if isinstance(dec, ast.Name) and dec.id in mod_funcs:
+        name, deco_fn = dec.id, mod_funcs[dec.id]
+    elif isinstance(dec, ast.Call) and isinstance(dec.func, ast.Name) and dec.func.id in mod_funcs and not dec.keywords:
+        name, factory = dec.func.id, mod_funcs[dec.func.id]
+        params = _plain_params(factory)
+        if params is None or len(params) != len(dec.args) or factory.decorator_list:
+            return None, f"decorator factory {name}: unsupported parameters"
+        for prm, arg in zip(params, dec.args):
+            if isinstance(arg, ast.Name) and arg.id in mod_funcs:
+                policies[prm] = mod_funcs[arg.id]
+            else:
+                return None, f"decorator factory {name}: argument `{_short(arg)}` is not a function of the module"
+        deco_fn = _returns_inner(factory)
+        if deco_fn is None:
+            return None, f"decorator factory {name} does not simply return an inner decorator"
+    else:
+        return None, f"unknown decorator `{_short(dec)}`"
+    dparams = _plain_params(deco_fn)
+    if dparams is None or len(dparams) != 1 or deco_fn.decorator_list:
+        return None, f"decorator {name}: unsupported signature"
+    mparam = dparams[0]
+    wrapper = _returns_inner(deco_fn)
+    if wrapper is None:
+        return None, f"decorator {name} does not simply return a wrapper function"
+    for d in wrapper.decorator_list:  # only functools.wraps(<wrapped>) is allowed on the wrapper
+        f = d.func if isinstance(d, ast.Call) else None
+        is_wraps = isinstance(f, ast.Name) and f.id == "wraps" or (isinstance(f, ast.Attribute) and f.attr == "wraps")
+        if not (is_wraps and len(d.args) == 1 and isinstance(d.args[0], ast.Name) and d.args[0].id == mparam and not d.keywords):
+            return None, f"decorator {name}: wrapper is itself decorated with `{_short(d)}`"
+    wparams = _plain_params(wrapper)
+    if wparams is None or len(wparams) != 1:
+        return None, f"decorator {name}: wrapper does not take exactly the handler object"
+    if mparam == wparams[0] or mparam in policies or wparams[0] in policies:
+        return None, f"decorator {name}: shadowed names"
+    w = _renamed(wrapper, {wparams[0]: "self"})
+    asserted, wbody = _strip_leading(w.body)
+    if asserted or not wbody or not isinstance(wbody[0], ast.If):
+        return None, f"decorator {name}: wrapper does not start with the privilege test (`{_short(wbody[0]) if wbody else ''}`)"
+    first, rest = wbody[0], wbody[1:]
+    if _refuse_test(first.test):
+        refusing = first.body
+    elif _pass_test(first.test):
+        if not _terminates(first.body):
+            return None, f"decorator {name}: the verified branch falls through into the refusal"
+        refusing = first.orelse if first.orelse else rest
+    else:
+        return None, f"decorator {name}: wrapper test `{_short(first.test)}` is not a privilege test"
+    if not _terminates(refusing):
+        return None, f"decorator {name}: the refusing branch does not return or raise (falls through to the handler)"
+    if any(isinstance(x, ast.Name) and x.id == mparam for st in refusing for x in ast.walk(st)):
+        return None, f"decorator {name}: the refusing branch refers to the wrapped handler"
+
+    def policy_of(call):
+        if (
+            isinstance(call, ast.Call)
+            and isinstance(call.func, ast.Name)
+            and call.func.id in policies
+            and len(call.args) == 1
+            and not call.keywords
+            and isinstance(call.args[0], ast.Name)
+            and call.args[0].id == "self"
+        ):
+            return policies[call.func.id]
+        return None
+
+    flat: List[ast.stmt] = []
+    for st in refusing:
+        pol = None
+        if isinstance(st, ast.Expr):
+            pol = policy_of(st.value)
+        elif isinstance(st, ast.Return) and st.value is not None:
+            pol = policy_of(st.value)
+        if pol is None:
+            flat.append(st)
+            continue
+        pp = _plain_params(pol)
+        if pp is None or len(pp) != 1 or pol.decorator_list or not isinstance(pol, ast.FunctionDef):
+            return None, f"decorator {name}: deny policy {pol.name} has an unsupported signature"
+        pbody = _doc_stripped(_renamed(pol, {pp[0]: "self"}).body)
+        if pbody and _bare_return(pbody[-1]):
+            pbody = pbody[:-1]
+        if any(isinstance(x, (ast.Return, ast.If, ast.For, ast.While, ast.Try, ast.With)) for b in pbody for x in ast.walk(b)):
+            return None, f"decorator {name}: deny policy {pol.name} is not straight-line"
+        flat += pbody
+        if isinstance(st, ast.Return):
+            flat.append(ast.Return(value=None))
+    for i, st in enumerate(flat):  # whatever follows a raise is unreachable
+        if isinstance(st, ast.Raise):
+            flat = flat[: i + 1]
+            break
+    if not _terminates(flat):
+        return None, f"decorator {name}: the refusing path does not return or raise"
+    kind = _refusal(flat[:-1], consts)
+    if _is_unpriv_raise(flat[-1]):
+        kind = "raise" if kind == "nothing" else None
+    elif isinstance(flat[-1], ast.Raise) or kind == "nothing":
+        kind = None
+    if kind is None:
+        return None, f"decorator {name}: the refusing path does more (or less) than log and refuse (`{_short(flat[0])}` ...)"
+    return kind, f"via decorator {name}"
+
+
+def classify_guard(fn: ast.FunctionDef, consts, methods=None, mod_funcs=None) -> Tuple[str, str]:
     """-> (lean term, human note). Anything not recognised is `.none` with the reason."""
     methods = methods or {}
+    if getattr(fn, "decorator_list", None):
+        # a decorated handler runs the decorator's wrapper first: only a recognised guard decorator counts
+        if len(fn.decorator_list) != 1:
+            return ".none", "several decorators on the handler"
+        kind, why = classify_decorator(fn.decorator_list[0], consts, mod_funcs or {})
+        if kind is None:
+            return ".none", why
+        lean, note = _lean_guard(kind, [])
+        return lean, f"{note} [{why}]"
     asserted, body = _strip_leading(fn.body)
     if not body:
         return ".none", "handler has no statements"
@@ -342,7 +506,109 @@ def _class_consts(mod: ast.Module) -> Dict[str, Dict[str, bytes]]:
     return res
 
 
-def _flag_writes(fn: ast.AST) -> List[str]:
+def _module_literals(mod: ast.Module) -> Dict[str, ast.AST]:
+    """NAME = <tuple / list / set / dict display> at module or class level (assigned exactly once)."""
+    found: Dict[str, List[ast.AST]] = {}
+
+    def scan(body):
+        for st in body:
+            if isinstance(st, ast.Assign) and len(st.targets) == 1 and isinstance(st.targets[0], ast.Name):
+                found.setdefault(st.targets[0].id, []).append(st.value)
+            elif isinstance(st, ast.AnnAssign) and isinstance(st.target, ast.Name) and st.value is not None:
+                found.setdefault(st.target.id, []).append(st.value)
+            elif isinstance(st, ast.ClassDef):
+                scan(st.body)
+
+    scan(mod.body)
+    # a name that is also assigned anywhere else (augmented, in a function via global, ...) is not trusted
+    stores: Dict[str, int] = {}
+    for n in ast.walk(mod):
+        if isinstance(n, ast.Name) and isinstance(n.ctx, (ast.Store, ast.Del)):
+            stores[n.id] = stores.get(n.id, 0) + 1
+    # mutable displays are only trusted if the module never calls a method on them (other than the
+    # read-only views) and never stores into a subscript of them
+    touched = set()
+    for n in ast.walk(mod):
+        if isinstance(n, ast.Attribute) and isinstance(n.value, ast.Name) and n.attr not in ("items", "keys", "values", "get"):
+            touched.add(n.value.id)
+        if isinstance(n, ast.Subscript) and isinstance(n.value, ast.Name) and isinstance(n.ctx, (ast.Store, ast.Del)):
+            touched.add(n.value.id)
+    return {k: v[0] for k, v in found.items()
+            if len(v) == 1 and stores.get(k, 0) == 1 and isinstance(v[0], (ast.Tuple, ast.List, ast.Set, ast.Dict))
+            and (isinstance(v[0], ast.Tuple) or k not in touched)}
+
+
+def _literal_strings(lit, pos) -> Optional[set]:
+    """The string constants at tuple position `pos` of every row (pos None: the elements themselves)."""
+    if isinstance(lit, ast.Dict):
+        rows = lit.keys
+        if pos not in (None, 0) or any(k is None for k in rows):
+            return None
+        pos = None
+    elif isinstance(lit, (ast.Tuple, ast.List, ast.Set)):
+        rows = lit.elts
+    else:
+        return None
+    out = set()
+    for r in rows:
+        if pos is not None:
+            if not isinstance(r, (ast.Tuple, ast.List)) or len(r.elts) <= pos or any(isinstance(e, ast.Starred) for e in r.elts):
+                return None
+            r = r.elts[pos]
+        if not (isinstance(r, ast.Constant) and isinstance(r.value, str)):
+            return None
+        out.add(r.value)
+    return out
+
+
+def _loop_var_strings(fn, call, name_node, literals) -> Optional[set]:
+    """`setattr(obj, <name>, ...)` where <name> is the variable of an enclosing
+    `for <name>[, ...] in <module/class-level literal table>[.items()/.keys()]`: the strings it ranges
+    over. None = cannot tell (the caller then treats the call as a possible writer of any attribute)."""
+    if not isinstance(name_node, ast.Name):
+        return None
+    var = name_node.id
+    binders = []
+    for loop in ast.walk(fn):
+        if not isinstance(loop, ast.For) or not any(x is call for b in loop.body for x in ast.walk(b)):
+            continue
+        tgt = loop.target
+        pos = None
+        if isinstance(tgt, ast.Name) and tgt.id == var:
+            pos = None
+        elif isinstance(tgt, (ast.Tuple, ast.List)) and all(isinstance(e, ast.Name) for e in tgt.elts) and var in [e.id for e in tgt.elts]:
+            pos = [e.id for e in tgt.elts].index(var)
+        else:
+            if any(isinstance(x, ast.Name) and x.id == var for x in ast.walk(tgt)):
+                return None
+            continue
+        binders.append((loop, pos))
+    if len(binders) != 1:
+        return None
+    loop, pos = binders[0]
+    # the variable must not be rebound anywhere else in the function
+    n_store = sum(1 for x in ast.walk(fn) if isinstance(x, ast.Name) and x.id == var and isinstance(x.ctx, (ast.Store, ast.Del)))
+    if n_store != 1 or any(isinstance(x, (ast.Global, ast.Nonlocal)) and var in x.names for x in ast.walk(fn)):
+        return None
+    it = loop.iter
+    via = None
+    if isinstance(it, ast.Call) and not it.args and not it.keywords and isinstance(it.func, ast.Attribute) and it.func.attr in ("items", "keys"):
+        via, it = it.func.attr, it.func.value
+    if isinstance(it, ast.Attribute) and isinstance(it.value, ast.Name) and it.value.id in ("self", "cls"):
+        it = ast.Name(id=it.attr, ctx=ast.Load())  # class-level table
+    lit = literals.get(it.id) if isinstance(it, ast.Name) else (it if isinstance(it, (ast.Tuple, ast.List, ast.Set, ast.Dict)) else None)
+    if lit is None:
+        return None
+    if via is not None and not isinstance(lit, ast.Dict):
+        return None
+    if isinstance(lit, ast.Dict):
+        if via == "items":
+            return _literal_strings(lit, 0) if pos == 0 else None
+        return _literal_strings(lit, None) if pos is None else None
+    return _literal_strings(lit, pos)
+
+
+def _flag_writes(fn: ast.AST, literals: Optional[Dict[str, ast.AST]] = None) -> List[str]:
     """values assigned to `<x>.is_encrypted` inside fn (source text of the value)"""
     out = []
     for n in ast.walk(fn):
@@ -357,9 +623,16 @@ def _flag_writes(fn: ast.AST) -> List[str]:
             targets = n.targets
             val = None
         elif isinstance(n, ast.Call) and isinstance(n.func, ast.Name) and n.func.id in ("setattr", "delattr"):
-            if len(n.args) >= 2 and isinstance(n.args[1], ast.Constant) and n.args[1].value == "is_encrypted":
-                out.append("setattr")
-            elif len(n.args) >= 2 and not isinstance(n.args[1], ast.Constant):
+            if len(n.args) >= 2 and isinstance(n.args[1], ast.Constant):
+                if n.args[1].value == "is_encrypted":
+                    out.append("setattr")
+            elif len(n.args) >= 2:
+                names = _loop_var_strings(fn, n, n.args[1], literals or {})
+                if names is None:
+                    out.append("setattr-dynamic")  # could name any attribute: a possible writer
+                elif "is_encrypted" in names:
+                    out.append("setattr")
+            else:
                 out.append("setattr-dynamic")
             continue
         else:
@@ -393,7 +666,19 @@ def extract() -> Dict:
                 res.add(n.attr)  # called or merely referenced: both count
         return res
 
-    direct = {name: bool(_flag_writes(fn)) for name, fn in methods.items()}
+    # module-level functions that are bound exactly once in the module (never redefined / reassigned)
+    binds: Dict[str, int] = {}
+    for n in ast.walk(mod):
+        if isinstance(n, (ast.FunctionDef, ast.AsyncFunctionDef, ast.ClassDef)):
+            binds[n.name] = binds.get(n.name, 0) + 1
+        elif isinstance(n, ast.Name) and isinstance(n.ctx, (ast.Store, ast.Del)):
+            binds[n.id] = binds.get(n.id, 0) + 1
+        elif isinstance(n, ast.alias):
+            nm = (n.asname or n.name).split(".")[0]
+            binds[nm] = binds.get(nm, 0) + 1
+    mod_funcs = {n.name: n for n in mod.body if isinstance(n, ast.FunctionDef) and binds.get(n.name) == 1}
+    literals_here = _module_literals(mod)
+    direct = {name: bool(_flag_writes(fn, literals_here)) for name, fn in methods.items()}
     reach: Dict[str, bool] = {}
     for name in methods:
         seen, todo, hit = set(), [name], False
@@ -415,7 +700,7 @@ def extract() -> Dict:
             if fn is None:
                 guard, note, sets = ".none", "handler method not found", True
             else:
-                guard, note = classify_guard(fn, consts, methods)
+                guard, note = classify_guard(fn, consts, methods, mod_funcs)
                 sets = reach[hname]
             routes.append(
                 {"method": method, "path": path, "handler": hname, "guard": guard, "note": note, "sets": sets}
@@ -429,11 +714,12 @@ def extract() -> Dict:
         except SyntaxError:
             continue
         rel = f.relative_to(REPO / "pyhap").as_posix()
+        lits = _module_literals(m)
 
-        def visit(node, qual):
+        def visit(node, qual, lits=lits):
             for ch in ast.iter_child_nodes(node):
                 if isinstance(ch, (ast.FunctionDef, ast.AsyncFunctionDef)):
-                    for v in _flag_writes_shallow(ch):
+                    for v in _flag_writes_shallow(ch, lits):
                         writers.append((f"{rel}:{qual + ch.name}", v))
                     visit(ch, qual + ch.name + ".")
                 elif isinstance(ch, ast.ClassDef):
@@ -442,12 +728,12 @@ def extract() -> Dict:
                     visit(ch, qual)
 
         visit(m, "")
-        for v in _flag_writes_toplevel(m):
+        for v in _flag_writes_toplevel(m, lits):
             writers.append((f"{rel}:<module>", v))
     return {"routes": routes, "writers": writers}
 
 
-def _flag_writes_shallow(fn) -> List[str]:
+def _flag_writes_shallow(fn, literals=None) -> List[str]:
     """writes in fn itself, not in nested defs (those are reported under their own name)"""
     clone = ast.parse(ast.unparse(fn)).body[0]
 
@@ -469,17 +755,17 @@ def _flag_writes_shallow(fn) -> List[str]:
         def visit_ClassDef(self, node):
             return ast.Pass()
 
-    return _flag_writes(Strip().visit(clone))
+    return _flag_writes(Strip().visit(clone), literals)
 
 
-def _flag_writes_toplevel(mod: ast.Module) -> List[str]:
+def _flag_writes_toplevel(mod: ast.Module, literals=None) -> List[str]:
     class Strip(ast.NodeTransformer):
         def visit_FunctionDef(self, node):
             return ast.Pass()
 
         visit_AsyncFunctionDef = visit_FunctionDef
 
-    return _flag_writes(Strip().visit(ast.parse(ast.unparse(mod))))
+    return _flag_writes(Strip().visit(ast.parse(ast.unparse(mod))), literals)
 
 
 def _lean_str(s: str) -> str:
